@@ -43,19 +43,19 @@ RULE = ('random axial lenses (2-6 interfaces, conics/even aspheres, infinite/fin
         'image-surface marginal-ray solves and NaN faults; an optimiser case is non-trivial when >= 10 objective '
         'evaluations were made and the merit changed; distinct = distinct case hash')
 TIERS = {'quick': dict(shards=8, cases=8, budget_s=240, watchdog_s=900),
-         'thorough': dict(shards=16, cases=150, budget_s=1500, watchdog_s=2700)}
-MIN_NONTRIVIAL = {'quick': 40, 'thorough': 800}
+         'thorough': dict(shards=16, cases=150, budget_s=600, watchdog_s=2400)}
+MIN_NONTRIVIAL = {'quick': 40, 'thorough': 500}
 _FE_MIN = {'quick': 1, 'thorough': 20}
-MIN_EVALS = {'merit-definition': {'quick': 60, 'thorough': 1500},
-             'objective-is-merit': {'quick': 30, 'thorough': 800},
+MIN_EVALS = {'merit-definition': {'quick': 60, 'thorough': 1000},
+             'objective-is-merit': {'quick': 30, 'thorough': 500},
              'variable-roundtrip': {'quick': 100, 'thorough': 3000},
              'bounds-units': {'quick': 100, 'thorough': 3000},
-             'lens-at-returned-x': {'quick': 30, 'thorough': 800},
-             'objective-reproduced': {'quick': 30, 'thorough': 800},
-             'not-worse-than-start': {'quick': 30, 'thorough': 800},
-             'bounds-respected': {'quick': 30, 'thorough': 800},
-             'pickups-solves-satisfied': {'quick': 10, 'thorough': 200},
-             'undo-restores': {'quick': 15, 'thorough': 400},
+             'lens-at-returned-x': {'quick': 30, 'thorough': 500},
+             'objective-reproduced': {'quick': 30, 'thorough': 500},
+             'not-worse-than-start': {'quick': 30, 'thorough': 500},
+             'bounds-respected': {'quick': 30, 'thorough': 500},
+             'pickups-solves-satisfied': {'quick': 10, 'thorough': 150},
+             'undo-restores': {'quick': 15, 'thorough': 300},
              'nan-fault': {'quick': 3, 'thorough': 40},
              'run[de-mp]': {'quick': 3, 'thorough': 9}}
 ASSUMPTIONS = ['operand values are taken from the lens analysis API (paraxial, aberrations, trace_generic, trace); the '
@@ -86,6 +86,7 @@ for _fe in FRONTENDS:
 MECH_LAST, MECH_MP, MECH_BOUNDS, MECH_UNDO = ('lens-left-at-last-evaluation', 'de-multiprocess-lens-untouched',
                                               'bounds-scaled-when-unscaled', 'undo-skips-update-optics')
 MECH_FAIL = 'scipy-failure-iterate-returned'
+MECH_DISP = 'index-variable-discards-dispersion'
 DE_MP_TIMEOUT_S = int(os.environ.get('C14_DE_MP_TIMEOUT_S', '300'))
 
 
@@ -100,7 +101,7 @@ def gen_lens(rng, freeform=False):
     for _ in range(200):
         a = L.loguniform(rng, 1.0, 8.0)
         spec, info = L.gen_axial(rng, nsurf=(2, 7), semi=a, asphere_p=0.3, finite_p=0.3, ap_kinds=('EPD',),
-                                 image='paraxial', neg_power_p=0.0, max_field_deg=8.0)
+                                 image='paraxial', neg_power_p=0.0, max_field_deg=8.0, glass_p=0.2)
         P = L.psys(spec)
         ya, _ = P.marginal(L.epd_of(spec, P))
         if not np.isfinite(ya[-1]) or abs(float(ya[-1])) > 1e-6 * a:
@@ -129,6 +130,9 @@ def var_candidates(spec, a, no_radius=(), no_last_thickness=False, offaxis=False
         m = s.get('medium', 'air')
         if isinstance(m, dict) and 'n' in m:
             out.append(('index', dict(surface_number=k, wavelength=wl), float(m['n'])))
+        elif isinstance(m, dict) and 'glass' in m:
+            # index variable on a catalogue glass: set_index() replaces the medium by a constant-index model
+            out.append(('index', dict(surface_number=k, wavelength=wl), float(L.medium_index(m, wl))))
         if typ == 'even_asphere':
             for i, cv in enumerate(s.get('coeffs', [])):
                 out.append(('asphere_coeff', dict(surface_number=k, coeff_number=i), float(cv)))
@@ -566,8 +570,10 @@ def judge_run(rec, info, o, fe):
     # objective at the start point is the merit at the start
     head = o['log_head']
     fault0 = bool(head) and head[0][2] > 0
+    m0_flat = info.get('m0_flat') if info.get('first_run', True) else None
     if head and np.allclose(head[0][0], x0, rtol=0, atol=1e-12 * float(np.max(xscale(x0)))) and not fault0:
         rec.close('objective-is-merit', head[0][1], o['m0'], 1e-9, key='objective-is-merit:unexplained', scale=max(abs(o['m0']), 1e-30),
+                  alt=m0_flat, flags=((MECH_DISP,) if m0_flat is not None else ()),
                   msg=f'{fe}: first objective evaluation at the start point = {head[0][1]!r}, merit at start = {o["m0"]!r}')
     # -- not-worse-than-start ----------------------------------------------------------------------------
     m_start = W.PENALTY if fault0 else o['m0']
@@ -577,10 +583,12 @@ def judge_run(rec, info, o, fe):
     start_outside = [bool(x0[i] < lo[i] - slack[i] or x0[i] > hi[i] + slack[i]) for i in range(len(x0))]
     clipped_by_mech = any(start_outside[i] and bstat[i] == 'mech' for i in range(len(x0)))
     ok = o['fun'] <= m_start * (1 + 1e-12) + 1e-300
-    start_seen = bool(head) and np.array_equal(np.asarray(head[0][0]), x0) and head[0][1] == o['m0']
+    start_seen = bool(head) and np.array_equal(np.asarray(head[0][0]), x0) and head[0][1] in (o['m0'], m0_flat)
     mech = 'unexplained'
     if clipped_by_mech:
         mech = MECH_BOUNDS
+    elif m0_flat is not None and o['fun'] <= m0_flat * (1 + 1e-12) + 1e-300:
+        mech = MECH_DISP     # the first evaluation replaced a catalogue glass by a constant index: the start merit moved
     elif (fe.startswith('generic') or fe == 'compensator:generic') and not o['success'] and start_seen \
             and (o['returned_point_evaluated'] or o['returned_fun_is_logged_value']):
         # scipy.optimize.minimize stopped without success (SLSQP iteration limit, L-BFGS-B abnormal line search on the
@@ -637,7 +645,17 @@ def judge_dependents(rec, dep, what):
                   msg=f'{what}: marginal ray height at the solve surface = {y!r}, requested {h!r}')
 
 
-def judge_undo(rec, case, before, labels, u, what):
+def glass_index_vars(case):
+    out = []
+    for i, vs in enumerate(case['variables']):
+        if vs['kind'] == 'index':
+            m = case['spec']['surfaces'][vs['kw']['surface_number'] - 1].get('medium')
+            if isinstance(m, dict) and 'glass' in m:
+                out.append((i, vs['kw']['surface_number']))
+    return out
+
+
+def judge_undo(rec, case, before, labels, u, what, raw0=None):
     """undo() restores the snapshot taken before the run.  As-built model of `undo-skips-update-optics` (undo re-sets the
     variables and does not re-apply pickups / solves): every entry as before the run, except that the picked-up radius
     and the solved image distance keep the values they had immediately before undo()."""
@@ -650,18 +668,42 @@ def judge_undo(rec, case, before, labels, u, what):
     fin = np.isfinite(want)
     zmax = max(1.0, float(np.max(np.abs(want[fin & isz]))) if np.any(fin & isz) else 1.0)
     scale = np.where(isz, zmax, np.maximum(1.0, np.where(fin, np.abs(want), 1.0)))
-    alt, flags = None, ()
-    if case.get('pickup') or case.get('solve'):
+    ix = {lb: i for i, lb in enumerate(labels)}
+    gv = glass_index_vars(case) if raw0 is not None else []
+
+    def with_disp(a):
+        # as-built model of `index-variable-discards-dispersion`: undo() re-sets the index through set_index(), i.e. a
+        # constant-index medium with the value the variable had at ITS wavelength before the run
+        a = a.copy()
+        for i, k in gv:
+            for j in range(3):
+                a[ix[f'{k}.n_post{j}']] = raw0[i]
+                a[ix[f'{k + 1}.n_pre{j}']] = raw0[i]
+        return a
+
+    def with_stale(a):
+        a = a.copy()
         pre = np.asarray(u['snap_pre_undo'], dtype=float)
-        alt = want.copy()
-        ix = {lb: i for i, lb in enumerate(labels)}
         if case.get('pickup'):
             i = ix[f"{case['pickup'][1]}.radius"]
-            alt[i] = pre[i]
+            a[i] = pre[i]
         if case.get('solve'):
             K = case['solve'][0]
-            alt[ix[f'{K}.z']] = want[ix[f'{K - 1}.z']] + (pre[ix[f'{K}.z']] - pre[ix[f'{K - 1}.z']])
-        flags = (MECH_UNDO,)
+            a[ix[f'{K}.z']] = want[ix[f'{K - 1}.z']] + (pre[ix[f'{K}.z']] - pre[ix[f'{K - 1}.z']])
+        return a
+    cands = []
+    dep = bool(case.get('pickup') or case.get('solve'))
+    if gv:
+        cands.append((with_disp(want), (MECH_DISP,)))
+    if dep:
+        cands.append((with_stale(want), (MECH_UNDO,)))
+    if gv and dep:
+        cands.append((with_stale(with_disp(want)), (MECH_DISP, MECH_UNDO)))
+    alt, flags = None, ()
+    for a_, f_ in cands:           # the smallest set of mechanisms that predicts the lens as left
+        alt, flags = a_, f_
+        if vec_close(rec, got, a_, 1e-12, scale)[0]:
+            break
     bad = np.nonzero(~(np.abs(got - want) <= 1e-12 * scale) & ~(~np.isfinite(got) & ~np.isfinite(want)))[0][:6]
     repaired = ''
     if 'snap_after_update' in u and len(bad):
@@ -702,9 +744,17 @@ def case_opt(case, rec):
     info = dict(vars=case['variables'], bstat=bstat)
     for vs, st in zip(case['variables'], bstat):
         rec.cls(f'optvar-{"scaled" if vs["scaled"] else "unscaled"}-{"bounded" if st != "unbounded" else "unbounded"}')
+    c = W.build(case)
+    gv = glass_index_vars(case)
+    if gv and c.ops:
+        rec.cls('index-variable-on-catalogue-glass')
+        for i, k in gv:
+            c.lens.set_index(W.raw_get(c.lens, case['variables'][i]), k)
+        c.lens.update()
+        info['m0_flat'] = W.penal(W.merit_oracle(c.lens, c.ops)[0])
+        c = W.build(case)
     if fe == 'de-mp':
         return case_de_mp(case, rec, info)
-    c = W.build(case)
     for d in c.dropped:
         rec.cls('operand-dropped-' + d)
     for o_ in c.ops:
@@ -733,7 +783,8 @@ def case_opt(case, rec):
                     rec.cls('run-aborted-infeasible-start')
                     return
                 raise o['error_obj']
-            stack.append((o['snap_before'], o['snap_labels']))
+            stack.append((o['snap_before'], o['snap_labels'], o['raw0']))
+            info['first_run'] = (nrun == 1)
             judge_run(rec, info, o, fe)
             if o['n_eval'] >= 10 and o['log_values_minmax'][0] != o['log_values_minmax'][1] and o['fun'] != o['m0']:
                 nontrivial = True
@@ -755,13 +806,13 @@ def case_opt(case, rec):
                        else DualAnnealing if fe == 'dual-annealing' else DifferentialEvolution)
                 c.optimizer = cls(c.problem)
             if stack:
-                before, labels = stack.pop()
+                before, labels, raw0 = stack.pop()
                 what = f'{fe}: undo() after {case["seq"]}'
             else:
-                before, labels = W.flat_snapshot(c.lens)
+                (before, labels), raw0 = W.flat_snapshot(c.lens), None
                 what = f'{fe}: undo() with nothing to undo'
             u = W.observe_undo(c)
-            judge_undo(rec, case, before, labels, u, what)
+            judge_undo(rec, case, before, labels, u, what, raw0)
             if has_dep:
                 c.lens.update()      # later steps start from a consistent lens (the stale state is recorded above)
             rec.check('undo-history', u['stack_len'] == len(stack), key='undo-history:unexplained',
@@ -806,7 +857,7 @@ def case_de_mp(case, rec, info):
             raise RuntimeError('c14_workers: ' + o['error'])
         rec.cls('fe-' + fe + '-rep')
         judge_run(rec, info, o, fe)
-        judge_undo(rec, case, o['snap_before'], o['snap_labels'], u, f'{fe}: undo() after optimize()')
+        judge_undo(rec, case, o['snap_before'], o['snap_labels'], u, f'{fe}: undo() after optimize()', o['raw0'])
         res[fe].append((o['x'], o['fun'], o['nfev']))
         if fe == 'de-mp':
             rec.event('de_mp_parent_side_evaluations', o['n_eval'])
